@@ -231,10 +231,15 @@ def sec_collected_rollout(ck, S_=2):
     kind = "discrete"
     # every on-policy learner, with the options that post-process advantages switched on (the STORED estimates must be the GAE estimates whatever the
     # loss does with them afterwards)
-    algos = [("", PPO(num_envs=1, num_steps=S_, num_batches=1, num_epochs=1, gamma=GAMMA, gae_lambda=0.5)),
-             (",algo=A2C(normalize_advantages=True)", A2C(num_envs=1, num_steps=S_, gamma=GAMMA, gae_lambda=0.5, normalize_advantages=True)),
-             (",algo=REINFORCE(normalize_advantages=True)", REINFORCE(num_envs=1, num_steps=S_, gamma=GAMMA, normalize_advantages=True))]
-    for atag, algo in algos:
+    # (the reference uses the lambda / gamma HANDED TO THE CONSTRUCTOR, not what the object stores: the statement's lambda is the user's; the end
+    # points lambda = 0 (one-step TD) and lambda = 1 (Monte Carlo) are legitimate values and are included)
+    algos = [("", PPO(num_envs=1, num_steps=S_, num_batches=1, num_epochs=1, gamma=GAMMA, gae_lambda=0.5), 0.5),
+             (",algo=A2C(normalize_advantages=True)", A2C(num_envs=1, num_steps=S_, gamma=GAMMA, gae_lambda=0.5, normalize_advantages=True), 0.5),
+             (",algo=REINFORCE(normalize_advantages=True)", REINFORCE(num_envs=1, num_steps=S_, gamma=GAMMA, normalize_advantages=True), 1.0),   # documented: Monte-Carlo returns
+             (",algo=PPO(gae_lambda=0)", PPO(num_envs=1, num_steps=S_, num_batches=1, num_epochs=1, gamma=GAMMA, gae_lambda=0.0), 0.0),
+             (",algo=A2C(gae_lambda=0)", A2C(num_envs=1, num_steps=S_, gamma=GAMMA, gae_lambda=0.0), 0.0),
+             (",algo=PPO(gae_lambda=1)", PPO(num_envs=1, num_steps=S_, num_batches=1, num_epochs=1, gamma=GAMMA, gae_lambda=1.0), 1.0)]
+    for atag, algo, lam_given in algos:
         env, pol = make(kind, False, True)
         cb = empty_callback()
         st = OnPolicyStep.example(env, pol, cb)
@@ -255,7 +260,7 @@ def sec_collected_rollout(ck, S_=2):
         s = find(S, "st_env_state_env_state_s")
         c = [find(S, "st_env_state_step_count")[()]]
         h = S["st_policy_state_h"]
-        g, lam = Fraction(GAMMA), Fraction(float(algo.gae_lambda))
+        g, lam = Fraction(GAMMA), Fraction(float(algo.gae_lambda) if lam_given is None else lam_given)
         rs, vs, ds = [], [], []
         for t in range(S_):
             K = {"O": kO[2 * t], "B": kO[2 * t + 1], "A": kAV[t], "T": kT[t], "R": kR[t], "Term": kTerm[t], "I": kI[t], "P": kP[t]}
